@@ -206,13 +206,14 @@ func snapEvent(e Event) *refEvent {
 // waitReads waits until the reader goroutine has entered Read more than r0 times: the datagram pushed after reading
 // r0 has then been processed completely (Process and the handler run synchronously in the reader).
 func (w *ocWorld) waitReads(r0 int) {
-	for i := 0; i < 20000; i++ {
+	// generous: the machine may be busy with other checks; a reader that never comes back is reported, slowness is not
+	for i := 0; i < 600000; i++ {
 		if w.conn.nReads() > r0 || w.closed {
 			return
 		}
 		time.Sleep(50 * time.Microsecond)
 	}
-	w.o.failf("the reader goroutine did not come back to Read; history %s", w.hist())
+	w.o.failf("the reader goroutine did not come back to Read within 30s; history %s", w.hist())
 }
 
 func (w *ocWorld) push(d []byte) {
@@ -368,7 +369,7 @@ func (w *ocWorld) opDo(id byte, size int) {
 	h := w.handlerFor(tx)
 	go func() { d.ret <- w.client.Do(m, func(e Event) { h(e) }) }()
 	// wait until Do has written the request or returned
-	for i := 0; i < 20000 && w.conn.nWrites() == nw; i++ {
+	for i := 0; i < 400000 && w.conn.nWrites() == nw; i++ {
 		select {
 		case d.err = <-d.ret:
 			d.returned = true
@@ -376,7 +377,7 @@ func (w *ocWorld) opDo(id byte, size int) {
 				tx.startErr = d.err
 				tx.done = true
 			}
-			i = 20000
+			i = 400000
 		default:
 			time.Sleep(50 * time.Microsecond)
 		}
@@ -403,7 +404,7 @@ func (w *ocWorld) checkDos(op string) {
 				if d.err != nil {
 					w.o.failf("after %s: Do of %s returned %v although its handler ran; history %s", op, d.tx.name, d.err, w.hist())
 				}
-			case <-time.After(2 * time.Second):
+			case <-time.After(20 * time.Second):
 				d.returned = true
 				w.o.failf("after %s: the handler of %s has run but Do did not return; history %s", op, d.tx.name, w.hist())
 			}
@@ -598,7 +599,7 @@ func (w *ocWorld) opClose() {
 		if !w.noClose || w.closed {
 			select {
 			case err = <-done:
-			case <-time.After(3 * time.Second):
+			case <-time.After(20 * time.Second):
 				w.o.failf("Close did not return; history %s", w.hist())
 				return
 			}
@@ -606,7 +607,7 @@ func (w *ocWorld) opClose() {
 			w.conn.in <- nil
 			select {
 			case err = <-done:
-			case <-time.After(3 * time.Second):
+			case <-time.After(20 * time.Second):
 				w.o.failf("Close did not return after the pending Read returned; history %s", w.hist())
 				return
 			}
@@ -649,7 +650,7 @@ func (w *ocWorld) opClose() {
 			select {
 			case d.err = <-d.ret:
 				d.returned = true
-			case <-time.After(time.Second):
+			case <-time.After(20 * time.Second):
 				d.returned = true
 				w.o.failf("Do of %s did not return although the client has been closed; history %s", d.tx.name, w.hist())
 			}
@@ -685,7 +686,7 @@ func (w *ocWorld) finish() {
 		if !errors.Is(err, ErrClientClosed) {
 			w.o.failf("Do after Close returned %v, expected ErrClientClosed; history %s", err, w.hist())
 		}
-	case <-time.After(2 * time.Second):
+	case <-time.After(20 * time.Second):
 		w.o.failf("Do after Close did not return; history %s", w.hist())
 	}
 	// the same request id as an in-flight one at Close time
